@@ -4,6 +4,7 @@ CONSTANTS
   V4Addrs = {"127.0.0.1", "127.0.0.2", "10.1.2.3"}
   Duals = {FALSE}
   ListForms = {FALSE}
+  NameCases = {FALSE}
   Garbage = {}
   Lists = {{"127.0.0.2"}}
   MaxXff = 0
